@@ -345,6 +345,9 @@ func instrumentNode(n ast.Node, point func(), info *types.Info, edits *[]edit, o
 					full = fn.FullName()
 				}
 			}
+			if full == "(*sync.WaitGroup).Done" || full == "(*sync.WaitGroup).Add" {
+				return false // part of the segment that ends the function (as in the engine)
+			}
 			if isSyncFunc(full) {
 				*edits = append(*edits, edit{off: off(x.Call.Pos()), end: off(x.Call.Pos()), text: "func() { zzvsched.Point(); "})
 				*edits = append(*edits, edit{off: off(x.Call.End()), end: off(x.Call.End()), text: " }()"})
